@@ -4,7 +4,7 @@ measured blind (5-7), which checks reported it with the rule set as it stood whe
 (read from the logs of those runs, passed as a directory)."""
 import json, glob, os, re, sys
 logs = sys.argv[1] if len(sys.argv) > 1 else None
-rounds = {c: i // 2 + 1 for i, c in enumerate("abcdefghijklmn")}
+rounds = {c: i // 2 + 1 for i, c in enumerate("abcdefghijklmnop")}
 for d in sorted(glob.glob('/verif/seeded/C*-*')):
     f = os.path.join(d, 'meta.json')
     if not os.path.exists(f):
